@@ -5,7 +5,7 @@ from driver import Leg
 # length/count/type/size word x 27 boundary values, type words additionally x 18 type codes); the rest are the five
 # input families on fresh encodings (1 valid : 10 truncation : 20 single word : 8 structure-aware : 11 random).
 def _leg(name, quick, sweepT=40, sweepW=10, workers=16, **kw):
-    return Leg(name, 'h_parse', 'asan', opts={'mode': name, 'sweepT': sweepT, 'sweepW': sweepW}, quick=quick, thorough=quick * 40,
+    return Leg(name, 'h_parse', 'asan', opts={'mode': name, 'sweepT': sweepT, 'sweepW': sweepW, 'sweepCap': quick // 2}, quick=quick, thorough=quick * 40,
                workers=workers, cpu_budget=10, per_worker_min=1500, **kw)
 
 def _sweep(name, mode, cases, sweepT, sweepW):   # thorough only: all prefixes / all words of many more encodings
@@ -37,8 +37,9 @@ SPEC = dict(
     legs=[
         Leg('regress', 'h_parse', 'asan', opts={'mode': 'regress'}, quick=1, thorough=1, workers=1, min_cases=1, cpu_budget=10),
         _leg('msg', 60000), _leg('tmsg', 25000), _leg('mini', 25000), _leg('micro', 25000),
-        _leg('gw', 30000), _leg('tgw', 15000, sweepW=6), _leg('text', 6000, sweepW=0, workers=4), _leg('raw', 8000, sweepW=0, workers=4), _leg('slip', 6000, sweepW=0, workers=4),
-        _leg('ws', 20000), _leg('tunnel', 12000, workers=8), _leg('minitunnel', 8000, workers=4), _leg('cgw', 10000, workers=6),
+        _leg('gw', 30000), _leg('tgw', 15000, sweepT=12, sweepW=3), _leg('text', 6000, sweepT=12, sweepW=0, workers=4), _leg('raw', 8000, sweepT=12, sweepW=0, workers=4),
+        _leg('slip', 6000, sweepT=12, sweepW=0, workers=4), _leg('ws', 20000, sweepT=20, sweepW=5), _leg('tunnel', 12000, sweepT=8, sweepW=2, workers=8),
+        _leg('minitunnel', 8000, sweepT=8, sweepW=2, workers=4), _leg('cgw', 10000, sweepT=12, sweepW=3, workers=6),
         Leg('deepnest', 'h_parse', 'asan', opts={'mode': 'deepnest'}, quick=3, thorough=3, workers=1, min_cases=1, cpu_budget=10),
         Leg('memcheck', 'h_parse', 'plain', opts={'mode': 'parsers'}, quick=1400, thorough=56000, workers=16, valgrind=True, cpu_budget=10),
         _sweep('msg_sweep', 'msg', 700000, 2000, 300), _sweep('tmsg_sweep', 'tmsg', 500000, 2000, 300), _sweep('mini_sweep', 'mini', 700000, 2000, 300),
@@ -47,7 +48,7 @@ SPEC = dict(
         _sweep('cgw_sweep', 'cgw', 700000, 1500, 300), _sweep('text_sweep', 'text', 300000, 2000, 0), _sweep('raw_sweep', 'raw', 300000, 2000, 0), _sweep('slip_sweep', 'slip', 300000, 2000, 0),
     ],
     min_stats={
-        'regress': {'regress_witnesses': 7, 'regress_F5_rejected': 1000},
+        'regress': {'regress_witnesses': 11, 'regress_F5_rejected': 1000, 'regress_micro_walks': 500},
         'msg': {'cases_msg': 50000, 'accepted_msg': 5000, 'rejected_msg': 20000, 'sweep_truncations': 3000, 'sweep_word_values': 5000, 'truncations_inside_the_first_12_bytes': 300,
                 'family_valid': 500, 'family_structure': 3000, 'family_random': 5000, 'role_nfields': 300, 'role_namelen': 1000, 'role_type': 2000, 'role_paylen': 1000, 'role_count': 500,
                 'role_itemlen': 500, 'role_subsize': 200, 'role_nest': 300, 'reuse_after_failure': 15000, 'reuse_after_success': 500, 'max_items_walked': 300, 'max_alloc_ratio_x100_valid_msg': 1},
@@ -64,7 +65,7 @@ SPEC = dict(
         'ws': {'cases_ws': 17000, 'role_ws-frame': 1500, 'role_hdr-size': 50, 'ws_handshake_reply_mutated': 100, 'accepted_ws': 3000, 'rejected_ws': 1000, 'post_reset_delivered': 3000, 'sweep_word_values': 1000},
         'tunnel': dict(_gw_min, **{'cases_tunnel': 10000, 'role_tun-offset': 100, 'role_tun-chunk': 100, 'role_tun-total': 100, 'role_tun-msgid': 100, 'giant_request_without_limit': 10}),
         'minitunnel': {'cases_minitunnel': 7000, 'role_mtun-chunksize': 100, 'role_mtun-clevel-id': 50, 'role_zlib-rawsize': 20, 'post_reset_delivered': 3000, 'family_structure': 100},
-        'cgw': {'cases_cgw': 8000, 'accepted_cgw': 2000, 'rejected_cgw': 1500, 'delivered_cgw': 3000, 'role_hdr-size': 200, 'cgw_valid_all_delivered': 50},
+        'cgw': {'cases_cgw': 8000, 'accepted_cgw': 2000, 'rejected_cgw': 1500, 'delivered_cgw': 3000, 'role_hdr-size': 200, 'cgw_valid_all_delivered': 30},
         'memcheck': {'cases_msg': 300, 'cases_tmsg': 300, 'cases_mini': 300, 'cases_micro': 300},
     },
 )
